@@ -212,6 +212,7 @@ func runTunnels(prop string) {
 	if prop == "C03" {
 		ts.Wait(20 * time.Minute)
 		degenerateKeyChecks(m)
+		keyDerivationChecks()
 	}
 	if prop == "C04" {
 		simrt.Sleep(500 * time.Millisecond)
